@@ -41,10 +41,17 @@ type c11Scenario struct {
 	Steps []c11Step `json:"steps"`
 }
 
+// c11PrepExpired counts preparation rounds in which a node was never called: after a few of them the
+// tree is known to be broken and the rest of the batch does not wait the full period again.
+var c11PrepExpired int
+
 func c11PrepWait() time.Duration {
 	ms, err := strconv.Atoi(os.Getenv("VERIF_WATCHDOG_MS"))
 	if err != nil || ms <= 0 {
 		ms = 3000
+	}
+	if c11PrepExpired >= 3 {
+		ms = 100
 	}
 	return time.Duration(ms) * time.Millisecond
 }
@@ -133,6 +140,9 @@ func c11RunScenario(t *testing.T, tr *verifsupport.Trace, sc c11Scenario) {
 			env.mu.Lock()
 			for env.prepSeen < len(sys.nodes) && time.Now().Before(deadline) && uerr == nil {
 				env.acctsCond.Wait()
+			}
+			if env.prepSeen < len(sys.nodes) && uerr == nil {
+				c11PrepExpired++
 			}
 			env.mu.Unlock()
 			timer.Stop()
